@@ -6,8 +6,11 @@ import fcntl, hashlib, json, os, re, shutil, subprocess, sys, tempfile, time
 from pathlib import Path
 
 VERIF = Path(__file__).resolve().parent.parent
-COQ = VERIF / 'coq'
-BUILD = VERIF / 'build'
+# (EQL_COQ_DIR / EQL_OUT_DIR: development only - a private copy of the Coq project and a private place for evidence / replays, so
+#  that several trees can be checked in parallel, e.g. all seeded changes; the registered commands never set them)
+COQ = Path(os.environ.get('EQL_COQ_DIR', str(VERIF / 'coq')))
+OUT = Path(os.environ.get('EQL_OUT_DIR', str(VERIF)))
+BUILD = OUT / 'build'
 REPO = Path(os.environ.get('EQL_REPO', '/repo'))
 SRC = Path(os.environ.get('EQL_SRC', str(REPO / 'src')))
 PY = os.environ.get('EQL_PYTHON', '/venv/bin/python')
@@ -259,7 +262,7 @@ def case_hash(obj):
 
 
 def write_replay(pid, payload):
-    d = VERIF / 'replays' / pid
+    d = OUT / 'replays' / pid
     d.mkdir(parents=True, exist_ok=True)
     f = d / (case_hash(payload) + '.json')
     f.write_text(json.dumps(payload, indent=1, sort_keys=True, default=str))
@@ -267,7 +270,7 @@ def write_replay(pid, payload):
 
 
 def write_evidence(pid, tier, seed, coverage, wall_s, violations, assumptions=None, level='proof'):
-    d = VERIF / 'evidence'
+    d = OUT / 'evidence'
     d.mkdir(exist_ok=True)
     ev = dict(property_id=pid, tier=tier, seed=int(seed), level=level, coverage=coverage,
               assumptions=assumptions or TRUSTED_BASE, wall_s=round(wall_s, 2), violations=int(violations))
